@@ -148,7 +148,7 @@ def _worker(args):
         out = ctx.dump()
         out["error"] = None
     except BaseException as e:  # harness error: reported, never turned into a pass or a violation
-        out = {"error": f"{type(e).__name__}: {e}\n{traceback.format_exc()[-6000:]}"}
+        out = {"error": f"{type(e).__name__}: {e}\n" + "".join(traceback.format_tb(e.__traceback__))[-3000:]}
     out["part"] = part
     out["wall"] = time.time() - t0
     return out
